@@ -162,7 +162,11 @@ def check_one(ctx, src, scopes, config, case):
                     out = out[:-1] if not out[:-1].endswith(b'\n') or True else out
                 ctx.monitor('cli_runs')
             else:
-                L, out = minify.minify_lib(src, 'keep_file' if config == 'keep_file' else config, keep_file)
+                two = ctx.monitors.get('minifier_runs', 0) % 4 == 1
+                before = minify.FILLED_IN_TWO_STEPS[0]
+                L, out = minify.minify_lib(src, ('keep_file' if config == 'keep_file' else config) + ('+two_steps' if two else ''), keep_file)
+                if minify.FILLED_IN_TWO_STEPS[0] > before:
+                    ctx.feature('object_filled_in_two_steps')
                 if config == 'keep_file':
                     # second pass on the same Lua object with the same arguments, as the cart writer does
                     from pico8.lua import lua as _lua
@@ -310,6 +314,8 @@ def gates(m, tier):
     if f.get('code_plus_header_over_65535', 0) < 3 or f.get('code_plus_header_within_65535', 0) < 1:
         missed.append('carts at the character limit: over %d, within %d' % (f.get('code_plus_header_over_65535', 0),
                                                                            f.get('code_plus_header_within_65535', 0)))
+    if f.get('object_filled_in_two_steps', 0) < 50:
+        missed.append('Lua objects filled in two steps: %d' % f.get('object_filled_in_two_steps', 0))
     if f.get('cli_png_carts', 0) < 20 or f.get('build_minify_png_carts', 0) < 10:
         missed.append('minified .p8.png carts: luamin %d, build --lua-minify %d' % (f.get('cli_png_carts', 0), f.get('build_minify_png_carts', 0)))
     if mon.get('titles_compared', 0) < 200:
